@@ -133,9 +133,12 @@ func VP_C05_transparent() {
 	}
 	clear := "/a 1 def currentfile eexec\n"
 	var plain string
-	switch vpChoose("program", 2) {
+	switch vpChoose("program", 3) {
 	case 0:
 		plain = "/b 2 def /c (x) def mark currentfile closefile\n"
+	case 2:
+		// the encrypted part leaves a dictionary open: the dictionary stack is still restored
+		plain = "/b 2 def 5 dict begin /q 7 def 2 dict begin mark currentfile closefile\n"
 	default:
 		plain = "/s 3 string def currentfile s readstring \x80\x0a\x0d pop /s exch def mark currentfile closefile\n"
 	}
@@ -152,9 +155,10 @@ func VP_C05_transparent() {
 	ref := NewInterpreter()
 	ref.MaxOps = 500
 	e1 := ref.ExecuteString("/a 1 def")
+	depthBefore := len(ref.DictStack)
 	ref.DictStack = append(ref.DictStack, ref.SystemDict)
 	e2 := ref.ExecuteString(plain)
-	ref.DictStack = ref.DictStack[:len(ref.DictStack)-1]
+	ref.DictStack = ref.DictStack[:depthBefore] // "the dictionary stack is restored"
 	e3 := ref.ExecuteString(trailer)
 	vpAssert("reference-run-ok", e1 == nil && (e2 == nil || e2 == io.EOF) && e3 == nil)
 
